@@ -275,5 +275,7 @@ def run(repo: Repo, tier: str) -> Report:
         detl = f"DataArray(dims={kw_.get('dims')}, coords={kw_.get('coords')})"
     rep.ob("R-FORMULA", AFILE, "ZonalStatistics.mean", "the result is labelled (input's first dim with its coordinate, zones = zone_ids, stat = [mean, valid])", okl, detl,
            das[-1] if das else "xarray.DataArray(...)")
+    from ..rules import r_stateless
+    r_stateless(rep, repo, [('ZonalStatistics', 'mean')])
     rep.floor("C16 obligations", len(rep.obls), 20)
     return rep
